@@ -124,6 +124,18 @@ class Unit:
                 return "return &(%s);" % e
             text, n = re.subn(r"\breturn\s+([^;]+);", ref_of, text)
             fired["D3.return-reference"] = fired.get("D3.return-reference", 0) + n
+        # residue lint: a C++ reference parameter is a struct pointer here; used as a truth value it would test the POINTER, not
+        # operator bool of the object - valid C, wrong meaning.  No rule may leave that behind.
+        for pm in re.finditer(r"(?:const\s+)?struct\s+\w+\s*\*\s*(\w+)\s*(?:,|\)|$)", f.c):
+            pn = re.escape(pm.group(1))
+            if pm.group(1) in getattr(f, "nullable_params", ()):
+                continue
+            for pat in (r"!\s*%s\b(?!\s*(?:->|\[|\.))" % pn, r"\b(?:if|while)\s*\(\s*%s\s*\)" % pn, r"(?:&&|\|\|)\s*%s\b(?!\s*(?:->|\[|\.|==|!=|<|>|\+|-))" % pn,
+                        r"(?<![\w>.*&])%s\s*(?:&&|\|\||\?)" % pn):
+                mm = re.search(pat, text)
+                if mm:
+                    raise ExtractionError("%s: reference parameter `%s` is used as a truth value and no rule maps it to the object's operator bool: ...%s..." % (
+                        f.name, pm.group(1), text[max(0, mm.start() - 30):mm.end() + 30].replace("\n", " ")))
         text, f.loops = annotate_loops(text, f.name)
         for mf in f.must_fire:
             if not any(fired.get(alt) for alt in mf.split("|")):
